@@ -1657,3 +1657,262 @@ def rule_replay_child_dedup(db: ProgramDB) -> List[Instance]:
     if n == 0:
         raise AnalysisError("no per-operand replay found")
     return out
+
+
+# ---------------------------------------------------------------------------------- RETRIEVE-TRIE-ONLY / COVERAGE-MONOTONE
+def rule_retrieve_trie_only(db: ProgramDB) -> List[Instance]:
+    """Retrieval answers from what is STORED, coverage answers which lookups need no evaluation: two relations.  A stored binding
+    agrees with a lookup when they agree on the keys they share; it covers the lookup only when it is contained in it.  A retrieve()
+    that consults the coverage record (self.check / self.seen_set) returns nothing for a lookup that binds fewer keys than the
+    stored bindings - which is what the registry of instances and a comparison entered with an unbound operand ask for.  Effect
+    rule: retrieve() and every method of the index it calls read none of the coverage state."""
+    out = []
+    ic = db.cls("IndexedCache")
+    m = ic.methods.get("retrieve")
+    if m is None:
+        raise AnalysisError("IndexedCache.retrieve not found")
+    cov_fields = {f.name for f in ic.fields() if f.annotation is not None and "SeenSet" in unparse(f.annotation)}
+    if not cov_fields:
+        raise AnalysisError("IndexedCache: no field of type SeenSet")
+    cov_methods = set()
+    for name, meth in ic.methods.items():
+        if name in ("insert", "clear", "__init__", "__post_init__"):
+            continue
+        reads = {n.attr for n in own_nodes(meth.node) if isinstance(n, ast.Attribute) and isinstance(n.value, ast.Name) and n.value.id == "self"}
+        if reads & cov_fields and name != "retrieve":
+            cov_methods.add(name)
+    seen, todo = set(), ["retrieve"]
+    while todo:
+        name = todo.pop()
+        if name in seen or name not in ic.methods:
+            continue
+        seen.add(name)
+        meth = ic.methods[name]
+        bad = None
+        for n in own_nodes(meth.node):
+            if isinstance(n, ast.Attribute) and isinstance(n.value, ast.Name) and n.value.id == "self":
+                if n.attr in cov_fields or (n.attr in cov_methods and name not in cov_methods):
+                    bad = n
+                    break
+                if n.attr in ic.methods and n.attr not in seen:
+                    todo.append(n.attr)
+        out.append(inst("RETRIEVE-TRIE-ONLY", VIOLATION if bad is not None else HOLDS, meth, f"IndexedCache.{name}[reads no coverage state]",
+                        "reads only the stores" if bad is None else
+                        f"`{unparse(bad)}` (line {bad.lineno}) makes what retrieve() returns depend on the coverage record: a lookup that binds fewer keys "
+                        f"than the stored bindings is covered by none of them although every one of them agrees with it, so the stored entries "
+                        f"are not returned (a variable ranging over the instance registry, a comparison entered with an unbound operand)",
+                        line=getattr(bad, "lineno", meth.lineno)))
+    return out
+
+
+def _per_key_test(e: ast.AST, container: str, kn: str, vn: str, case: str):
+    """Value of a per-key containment test `e` over (kn, vn) pairs of one binding against the binding `container` when that binds
+    kn to the same value / to another value / not at all.  Raises KeyError (the test would) or LookupError(text) (outside the table)."""
+    def ev(e):
+        if isinstance(e, ast.Constant):
+            return e.value
+        if isinstance(e, ast.Name):
+            if e.id == vn:
+                return "V"
+            raise LookupError(unparse(e))
+        if isinstance(e, ast.Subscript) and unparse(e.value) == container and unparse(e.slice) == kn:
+            if case == "missing":
+                raise KeyError
+            return "V" if case == "same" else "W"
+        if isinstance(e, ast.Call) and call_attr(e) == "get" and unparse(e.func.value) == container and e.args and unparse(e.args[0]) == kn:
+            if case == "missing":
+                return ev(e.args[1]) if len(e.args) > 1 else None
+            return "V" if case == "same" else "W"
+        if isinstance(e, ast.Compare) and len(e.ops) == 1:
+            if isinstance(e.ops[0], (ast.In, ast.NotIn)) and unparse(e.left) == kn and unparse(e.comparators[0]) in (container, f"{container}.keys()"):
+                r = case != "missing"
+                return r if isinstance(e.ops[0], ast.In) else not r
+            l, r = ev(e.left), ev(e.comparators[0])
+            if isinstance(e.ops[0], (ast.Eq, ast.Is)):
+                return l == r
+            if isinstance(e.ops[0], (ast.NotEq, ast.IsNot)):
+                return l != r
+        if isinstance(e, ast.IfExp):
+            return ev(e.body) if ev(e.test) else ev(e.orelse)
+        if isinstance(e, ast.BoolOp):
+            r = isinstance(e.op, ast.And)
+            for x in e.values:
+                r = ev(x)
+                if bool(r) != isinstance(e.op, ast.And):
+                    return r
+            return r
+        if isinstance(e, ast.UnaryOp) and isinstance(e.op, ast.Not):
+            return not ev(e.operand)
+        raise LookupError(unparse(e))
+    return ev(e)
+
+
+def rule_coverage_monotone(db: ProgramDB) -> List[Instance]:
+    """'After ANY sequence of insertions … a coverage check succeeds exactly when SOME stored binding is contained in the lookup':
+    a binding that was recorded stays recorded until clear().  Outside clear(), the record is only appended to; a method that
+    drops records is accepted only when it drops exactly the ones the new binding makes redundant - those that CONTAIN the new
+    binding (whatever they cover, the new one covers) - decided with the same per-key table as the coverage test, roles swapped.
+    Dropping the records the new binding contains (the more general ones) loses coverage of every lookup they covered and the
+    new one does not."""
+    out = []
+    ss = db.cls("SeenSet")
+    store_fields = [f.name for f in ss.fields() if f.annotation is not None and any(w in unparse(f.annotation) for w in ("List", "list", "Set", "set"))]
+    if not store_fields:
+        raise AnalysisError("SeenSet: no collection field found")
+    n_sites = 0
+    for name, meth in ss.methods.items():
+        if name in ("clear", "__init__", "__post_init__"):
+            continue
+        params = [a for a in meth.positional_params[1:]]
+        for n in own_nodes(meth.node):
+            target = None
+            if isinstance(n, (ast.Assign, ast.AugAssign, ast.AnnAssign)):
+                tg = n.targets if isinstance(n, ast.Assign) else [n.target]
+                for t in tg:
+                    if isinstance(t, ast.Attribute) and unparse(t.value) == "self" and t.attr in store_fields:
+                        target = ("assign", t.attr, n)
+                    if isinstance(t, ast.Subscript) and isinstance(t.value, ast.Attribute) and unparse(t.value.value) == "self" and t.value.attr in store_fields:
+                        target = ("assign", t.value.attr, n)
+            elif isinstance(n, ast.Delete):
+                for t in n.targets:
+                    if any(isinstance(x, ast.Attribute) and unparse(x.value) == "self" and x.attr in store_fields for x in ast.walk(t)):
+                        target = ("del", "", n)
+            elif isinstance(n, ast.Call) and isinstance(n.func, ast.Attribute) and isinstance(n.func.value, ast.Attribute) \
+                    and unparse(n.func.value.value) == "self" and n.func.value.attr in store_fields:
+                if n.func.attr in ("append", "add", "extend", "update", "insert"):
+                    n_sites += 1
+                    out.append(inst("COVERAGE-MONOTONE", HOLDS, meth, f"SeenSet.{name}[{unparse(n)[:50]}]", "adds to the record", line=n.lineno))
+                    continue
+                if n.func.attr in ("remove", "pop", "clear", "discard", "difference_update", "intersection_update"):
+                    target = ("call", n.func.attr, n)
+            if target is None:
+                continue
+            n_sites += 1
+            kind, _, node = target
+            verdict, why = VIOLATION, f"`{unparse(node)[:80]}` takes recorded bindings out of the coverage record outside clear()"
+            if kind == "assign" and isinstance(node, ast.Assign) and isinstance(node.value, ast.ListComp) and len(node.value.generators) == 1:
+                g = node.value.generators[0]
+                if isinstance(g.target, ast.Name) and isinstance(node.value.elt, ast.Name) and node.value.elt.id == g.target.id \
+                        and unparse(g.iter) in {f"self.{f}" for f in store_fields} and len(g.ifs) == 1:
+                    c = g.target.id
+                    cond = g.ifs[0]
+                    drop_if = cond.operand if isinstance(cond, ast.UnaryOp) and isinstance(cond.op, ast.Not) else None
+                    if drop_if is not None and isinstance(drop_if, ast.Call) and dotted(drop_if.func) == "all" and drop_if.args \
+                            and isinstance(drop_if.args[0], (ast.GeneratorExp, ast.ListComp)):
+                        comp = drop_if.args[0]
+                        gg = comp.generators[0]
+                        if isinstance(gg.target, ast.Tuple) and len(gg.target.elts) == 2 and all(isinstance(e, ast.Name) for e in gg.target.elts) \
+                                and not gg.ifs and isinstance(gg.iter, ast.Call) and call_attr(gg.iter) == "items":
+                            over = unparse(gg.iter.func.value)
+                            kn, vn = gg.target.elts[0].id, gg.target.elts[1].id
+                            if over in params:
+                                # pairs of the NEW binding tested against the record c: dropped when new is contained in c - redundant
+                                try:
+                                    got = {case: bool(_per_key_test(comp.elt, c, kn, vn, case)) for case in ("same", "other", "missing")}
+                                except KeyError:
+                                    got = None
+                                except LookupError as u:
+                                    got = None
+                                    verdict, why = UNDECIDED, f"`{unparse(comp.elt)}`: `{u}` is outside the accepted table"
+                                if got == {"same": True, "other": False, "missing": False}:
+                                    verdict, why = HOLDS, (f"drops only records that contain the new binding `{over}` (per-key test exact): "
+                                                           f"what they cover the new binding covers")
+                                elif got is not None:
+                                    verdict, why = VIOLATION, (f"`{unparse(node)[:90]}` drops a record when {got}: not exactly the records that contain the new "
+                                                               f"binding, lookups those records covered are no longer covered")
+                            elif over == c:
+                                verdict, why = VIOLATION, (f"`{unparse(node)[:110]}` drops the records that are CONTAINED in the new binding `{params[0] if params else '?'}` - the "
+                                                           f"more general ones: every lookup they covered that does not also contain the new binding is no longer "
+                                                           f"covered, the operator evaluates again what it has cached and the rows come back twice (or, for the duplicate "
+                                                           f"filter, a row seen before is yielded again)")
+                    elif drop_if is None:
+                        verdict, why = UNDECIDED, f"`{unparse(node)[:80]}`: a filter over the record that is not `not all(… for k, v in ….items())`"
+            out.append(inst("COVERAGE-MONOTONE", verdict, meth, f"SeenSet.{name}[record only grows]", why, line=node.lineno))
+    if not n_sites:
+        raise AnalysisError("SeenSet: no site that writes the coverage record found")
+    return out
+
+
+# ---------------------------------------------------------------------------------- REPLAY-OR-EVALUATE
+def _replay_helper_names(db: ProgramDB) -> Set[str]:
+    bo = db.cls("BinaryOperator")
+    names = set()
+    for c in [bo] + bo.all_subclasses():
+        for m in c.methods.values():
+            if not m.is_generator:
+                continue
+            for loop in [n for n in own_nodes(m.node) if isinstance(n, ast.For)]:
+                if isinstance(loop.iter, ast.Call) and call_attr(loop.iter) == "retrieve" and any(
+                        isinstance(n, ast.Yield) and n.value is not None and not isinstance(n.value, ast.Tuple) for n in ast.walk(loop)):
+                    names.add(m.name)
+    return names
+
+
+def rule_replay_or_evaluate(db: ProgramDB) -> List[Instance]:
+    """For each row of its first operand an operator EITHER replays the second operand's rows from the cache OR evaluates the second
+    operand - one of the two, and then it goes on with the next row.  Path rule on the statement CFG of every per-row replay site:
+    from the replay, every (non-exceptional) path reaches the head of the row loop again before it reaches an evaluation of an
+    operand (falling through: the rows come twice, once replayed and once evaluated) and before it leaves the function (the
+    remaining rows of the first operand are lost)."""
+    out = []
+    helpers = _replay_helper_names(db)
+    if not helpers:
+        raise AnalysisError("no cache-replay helper found")
+    se = db.cls("SymbolicExpression")
+    n = 0
+    for c in sorted(se.all_subclasses(), key=lambda k: k.qualname):
+        for m in c.methods.values():
+            if m.cls is not c or not m.is_generator:
+                continue
+            sites = [call for call in own_calls(m) if call_attr(call) in helpers and isinstance(call.func.value, ast.Name) and call.func.value.id == "self"]
+            if not sites:
+                continue
+            cfg = None
+            for call in sites:
+                # innermost enclosing for loop
+                anc = []
+                x = call
+                while x is not None and x is not m.node:
+                    x = db.parent(x)
+                    if isinstance(x, ast.For):
+                        anc.append(x)
+                if not anc:
+                    continue          # a replay for the whole incoming binding (Comparator): followed by return, by design
+                loop = anc[0]
+                if cfg is None:
+                    cfg = CFG(m)
+                st = call
+                while not isinstance(st, ast.stmt):
+                    st = db.parent(st)
+                starts = [nd for nd in cfg.nodes if nd.ast is st or (nd.stmt is st and nd.kind == "stmt")]
+                heads = {nd.id for nd in cfg.nodes if nd.kind == "for" and nd.stmt is loop}
+                if not starts or not heads:
+                    raise AnalysisError(f"{m.short}: replay site or its row loop not found in the CFG")
+                n += 1
+
+                def evaluates_operand(nd):
+                    return nd.ast is not None and nd.kind in ("stmt", "for", "return", "test") and nd.id not in {s_.id for s_ in starts} and any(
+                        isinstance(y, ast.Call) and isinstance(y.func, ast.Attribute) and y.func.attr.startswith("_evaluate") and
+                        isinstance(y.func.value, ast.Attribute) and unparse(y.func.value.value) == "self"
+                        for y in ast.walk(nd.ast if nd.kind != "for" else nd.ast.iter))
+                p1 = p2 = None
+                for s0 in starts:
+                    p1 = p1 or cfg.find_path(s0.id, evaluates_operand, kinds=("n",), blocked=lambda nd: nd.id in heads)
+                    p2 = p2 or cfg.find_path(s0.id, lambda nd: nd.kind in ("exit", "return"), kinds=("n",), blocked=lambda nd: nd.id in heads)
+                key = f"{m.short}[{unparse(call)[:46]}]"
+                if p1 is not None:
+                    out.append(inst("REPLAY-OR-EVALUATE", VIOLATION, m, key,
+                                    f"after replaying the cached rows for this row of the first operand the code goes on to "
+                                    f"`{cfg.nodes[p1[-1].dst].src()[:70]}` ({' '.join(cfg.describe_path(p1)[-3:])}): the operand is evaluated as well and its rows are "
+                                    f"yielded a second time (with every variable selected the row count is no longer the number of satisfying assignments)", line=call.lineno))
+                elif p2 is not None:
+                    out.append(inst("REPLAY-OR-EVALUATE", VIOLATION, m, key,
+                                    f"after replaying the cached rows for this row of the first operand the generator ends "
+                                    f"({' '.join(cfg.describe_path(p2)[-3:])}): the remaining rows of the first operand are never looked at - once a binding of "
+                                    f"the second operand recurs, the rest of the join is lost", line=call.lineno))
+                else:
+                    out.append(inst("REPLAY-OR-EVALUATE", HOLDS, m, key, "after the replay every path goes on with the next row of the first operand", line=call.lineno))
+    if n == 0:
+        raise AnalysisError("no per-row cache replay site found")
+    return out
+
